@@ -619,6 +619,17 @@ def rule_inverse_blocks(ctx: Ctx) -> None:
     # reduction) changes signs again, so nothing that touches the tableau may follow it
     xs = [st for st, t in seq if t == {"X"}]
     if xs:
+        # every path reaches the sign pass: a return before it hands back a tableau whose signs were never corrected (a computational basis
+        # state with a qubit in |1> "has nothing to do" in the Clifford blocks and still needs its X)
+        before = fn.body[:fn.body.index(xs[-1])]
+        early = [r for st in before for r in ast.walk(st) if isinstance(r, ast.Return)]
+        if early:
+            g = parent(early[0])
+            ctx.fail("inverse.blocks", m, early[0],
+                     f"inverse_circuit returns under `{short(g.test, 60) if isinstance(g, ast.If) else 'an earlier branch'}` before the sign pass: the X corrections for the "
+                     f"generators with a minus sign are never emitted on that path, so the returned gates map e.g. -Z (the state |1>) to itself instead of |0>",
+                     func="inverse_circuit", construct="inverse_circuit: return before the sign pass")
+            return
         after = fn.body[fn.body.index(xs[-1]) + 1:]
         late = [c for st in after for c in calls_in(st) if (call_attr(c) or getattr(c.func, "id", "")) in ("tab_row_sum", "row_sum", "tab_row_swap")
                 or (call_name(c) or "").startswith("transform.")]
@@ -644,7 +655,49 @@ def rule_inverse_blocks(ctx: Ctx) -> None:
                                           f"{[sorted(t) for t in INVERSE_BLOCKS]}", func="inverse_circuit", construct="inverse_circuit: order of elimination passes")
 
 
+def rule_ctor_phase_source(ctx: Ctx) -> None:
+    """ctor.phase-source: CliffordTableau(<StabilizerTableau>) completes the generators with destabilizers through clifford_from_stabilizer;
+    the sign vector of the new tableau (2n entries: destabilizer signs, then the stabilizer signs) is the one of *that* converted tableau.
+    The n-entry sign vector of the stabilizer tableau handed in does not fit (_initialize_phase silently falls back to zeros for a vector
+    of the wrong length), so every minus sign of the state is lost."""
+    repo = ctx.repo
+    rel = "graphiq/backends/stabilizer/clifford_tableau.py"
+    m = repo.module(rel)
+    fn = repo.anchor(rel, "CliffordTableau.__init__")
+    ctx.touch(m, fn)
+    D = func_params(fn)[1]
+    n = 0
+    for i in [x for x in ast.walk(fn) if isinstance(x, ast.If)]:
+        t = i.test
+        if not (isinstance(t, ast.Call) and call_name(t) == "isinstance" and len(t.args) == 2 and norm(t.args[0]) == D and norm(t.args[1]).endswith("StabilizerTableau")):
+            continue
+        conv = [norm(a.targets[0]) for st in i.body for a in ast.walk(st) if isinstance(a, ast.Assign) and isinstance(a.value, ast.Call) and call_attr(a.value) == "clifford_from_stabilizer"]
+        if not conv:
+            raise AnalysisError("CliffordTableau.__init__: the StabilizerTableau branch does not convert through clifford_from_stabilizer")
+        n += 1
+        stores = []
+        for st in i.body:
+            for a in ast.walk(st):
+                if isinstance(a, ast.Assign) and any(norm(t_) in ("self._phase", "self.phase") for t_ in a.targets):
+                    stores.append((a, a.value))
+                if isinstance(a, ast.Call) and call_name(a) == "self._initialize_phase" and a.args:
+                    stores.append((a, a.args[0]))
+        bad = [(node, v) for node, v in stores if not any(isinstance(x, ast.Name) and x.id in conv for x in ast.walk(v))]
+        if bad:
+            node, v = bad[0]
+            ctx.fail("ctor.phase-source", m, node,
+                     f"CliffordTableau.__init__ takes the sign vector of a tableau built from a StabilizerTableau from `{short(v)}` instead of the converted tableau "
+                     f"`{conv[0]}`: the stabilizer tableau's vector has n entries, the Clifford tableau needs 2n (and _initialize_phase replaces a vector of the wrong "
+                     f"length by zeros), so |1>, -|+> or a GHZ state with -XXX become their all-plus counterparts", func="CliffordTableau.__init__",
+                     construct="CliffordTableau.__init__: signs not taken from the converted tableau")
+        else:
+            ctx.ok("ctor.phase-source", m, i, what="signs of a tableau built from stabilizers come from the converted Clifford tableau")
+    if n == 0:
+        raise AnalysisError("CliffordTableau.__init__: no branch for StabilizerTableau input found")
+
+
 def run(ctx: Ctx) -> None:
+    rule_ctor_phase_source(ctx)
     from ..rules import tableau as _tbx
     _tbx.rule_xz_rowops(ctx, ["graphiq/backends/stabilizer/functions/linalg.py", "graphiq/backends/stabilizer/functions/stabilizer.py"])
     from ..rules import bitform as _bitform
@@ -709,6 +762,8 @@ def _edit_pauli_at(src: str) -> str:
 
 
 KNOCKOUTS = [
+    Knockout("clifford-ctor-signs-from-the-stabilizer-vector", "graphiq/backends/stabilizer/clifford_tableau.py", sub_once("            if isinstance(data, StabilizerTableau):\n                data = stab.clifford_from_stabilizer(data)\n", "            if isinstance(data, StabilizerTableau):\n                clifford = stab.clifford_from_stabilizer(data)\n                self._table = np.copy(clifford.table)\n                self.n_qubits = clifford.n_qubits\n                self._initialize_phase(data.phase)\n                self.shape = (2 * self.n_qubits, 2 * self.n_qubits)\n                return\n"), "ctor.phase-source", "2n"),
+    Knockout("inverse-circuit-early-return-for-z-only-states", STABF, sub_nth("    # Hadamard block\n    for j in range(n_qubits):", "    if not np.any(tableau.x_matrix):\n        return tableau, circuit_list\n\n    # Hadamard block\n    for j in range(n_qubits):", 0), "inverse.blocks", "before the sign pass"),
     Knockout("z-pivot-hadamard-test-x-half-only", STABF, sub_once("            if np.any(tableau.x_matrix[pivot[0], j + 1 : n_qubits]) or np.any(\n                tableau.z_matrix[pivot[0], j + 1 : n_qubits]\n            ):", "            if np.any(tableau.table[pivot[0], j + 1 : n_qubits]):"), "inverse.zpivot-h", "one half"),
     Knockout("sign-pass-before-last-row-reduction", STABF, sub_once("    # Eliminate Zs\n    for j in range(n_qubits):\n        for k in range(j + 1, n_qubits):\n            if tableau.x_matrix[k, j] == 0 and tableau.z_matrix[k, j] == 1:\n                tableau = tab_row_sum(tableau, j, k)\n\n    # Eliminate phase\n    for i in np.nonzero(tableau.phase)[0]:\n        tableau = transform.x_gate(tableau, i)\n        circuit_list.append((\"X\", int(i)))\n", "    # Eliminate phase\n    for i in np.nonzero(tableau.phase)[0]:\n        tableau = transform.x_gate(tableau, i)\n        circuit_list.append((\"X\", int(i)))\n\n    # Eliminate Zs\n    for j in range(n_qubits):\n        for k in range(j + 1, n_qubits):\n            if tableau.x_matrix[k, j] == 0 and tableau.z_matrix[k, j] == 1:\n                tableau = tab_row_sum(tableau, j, k)\n"), "inverse.blocks", "after the sign pass"),
     Knockout("canonical-form-skipped-for-unit-diagonal", STABF, sub_once("    tableau = canonical_form(tableau)\n", "    if not np.all(np.diag(tableau.x_matrix) == 1):\n        tableau = canonical_form(tableau)\n"), "inverse.canonical-first", "conditional"),
